@@ -263,7 +263,7 @@ impl Scenario for GrammarSim {
                 let fut = async {
                     match case.via {
                         Via::Client | Via::ClientNoPool => {
-                            let cfg = ClientCfg { pool: case.via == Via::Client, idle_timeout_ms: None, max_idle: 32, continue_after_preemption: true, alpn_h2: true, timeout_ms: None, order: (crate::rng::fnv1a(format!("{}{}{}", case.uri, case.method, case.version).as_bytes()) % 24) as u8 };
+                            let cfg = ClientCfg { pool: case.via == Via::Client, idle_timeout_ms: None, max_idle: 32, continue_after_preemption: true, alpn_h2: true, timeout_ms: None, order: (crate::rng::fnv1a(format!("{}{}{}", case.uri, case.method, case.version).as_bytes()) % 24) as u8, busy: [0u8, 0, 0, 1, 3][(crate::rng::fnv1a(format!("busy{}{}{}", case.uri, case.method, case.version).as_bytes()) % 5) as usize] };
                             let svc = super::build_client(&net, &cfg, case.tls);
                             svc.oneshot(req).await
                         }
